@@ -15,7 +15,7 @@ def _ops():
     return ops
 
 
-def build(m, scale=1.0, node_order=None, delay_jitter=0.0, name='net'):
+def build(m, scale=1.0, node_order=None, delay_jitter=0.0, name='net', int_delays=False):
     """scale = dt_real; coefficients are divided by dt so that the Euler/Heun iterates are those of dt = 1."""
     from pyrates import NodeTemplate, CircuitTemplate
     ops = _ops()
@@ -34,6 +34,8 @@ def build(m, scale=1.0, node_order=None, delay_jitter=0.0, name='net'):
         attr = {'weight': e['w'] / scale}
         if e['lag'] > 0:
             attr['delay'] = (e['lag'] + delay_jitter) * scale
+            if int_delays and float(attr['delay']).is_integer():
+                attr['delay'] = int(attr['delay'])       # `delay: 2` as a user writes it
         if e.get('spread'):
             attr['spread'] = e['spread'] * scale
         edges.append((f"n{e['s']}/lin{m['kind'][e['s'] - 1]}/x", f"n{e['t']}/lin{m['kind'][e['t'] - 1]}/u", None, attr))
@@ -88,11 +90,11 @@ def inputs_of(m, scale=1.0, steps=None):
 
 
 def run_model(m, cfg, scale=1.0, precision='float64', backend='default', cutoff_shift=0.0, node_order=None,
-              delay_jitter=0.0, decorator=None, form='nodes', decimal=False, **kw):
+              delay_jitter=0.0, decorator=None, form='nodes', decimal=False, int_delays=False, **kw):
     """Returns dict(index=[...], rows=[[x_1..x_n] per row]) or dict(exc=type name)."""
     import numpy as np
     warnings.filterwarnings('ignore')
-    circ = build(m, scale, node_order, delay_jitter) if form == 'nodes' else build_pop(m, scale, delay_jitter)
+    circ = build(m, scale, node_order, delay_jitter, int_delays=int_delays) if form == 'nodes' else build_pop(m, scale, delay_jitter)
     steps, store = cfg['steps'], cfg['store']
     T, dt, dts = steps * scale, scale, store * scale
     cutoff = max(cfg['cut'] - cutoff_shift, 0) * scale
